@@ -391,9 +391,14 @@ func (r *Run) Finish() {
 		ev["assumptions"] = []string{}
 	}
 	if r.Replay == "" {
-		_ = os.MkdirAll(filepath.Join(root, "evidence"), 0o755)
+		evdir := filepath.Join(root, "evidence")
+		if vr := os.Getenv("VERIF_REPO"); vr != "" && vr != "/repo" {
+			// calibration against another checkout: never overwrite the evidence of the real tree
+			evdir = filepath.Join(root, "evidence", "calibration")
+		}
+		_ = os.MkdirAll(evdir, 0o755)
 		b, _ := json.MarshalIndent(ev, "", " ")
-		if err := os.WriteFile(filepath.Join(root, "evidence", r.Prop+".json"), append(b, '\n'), 0o644); err != nil {
+		if err := os.WriteFile(filepath.Join(evdir, r.Prop+".json"), append(b, '\n'), 0o644); err != nil {
 			fmt.Fprintf(os.Stderr, "evidence: %v\n", err)
 			os.Exit(2)
 		}
